@@ -26,7 +26,7 @@ func vLocal(workDir, p string) string {
 // draft prescribes, on the locally resolved path(s), and answers with the
 // status (or value) of that call
 //
-//verif:samples 40
+//verif:samples 400
 func vh_C05_adapter() {
 	vErrKinds = 3
 	vTape = nil
